@@ -56,7 +56,7 @@ func rtFamilies(run *vk.Run) []*rtFamily {
 		}, "base2")},
 		{name: "S-req", u: fedlab.SReqUniverse(req), layout: fedlab.ByType(req, 3, func(r fedlab.FieldRef) int {
 			switch r.String() {
-			case "Item.shipping", "Item.volume", "Query.boxes", "Box.size", "Box.content":
+			case "Item.shipping", "Item.volume", "Item.summary", "Query.boxes", "Box.size", "Box.content":
 				return 1
 			case "Item.weight", "Item.dims", "Maker.label":
 				return 2
@@ -165,7 +165,7 @@ func checkRuntime(t *testing.T, run *vk.Run) {
 			return
 		}
 	}
-	optionSets := [][]string{nil, {"schedule"}, {"multifetch"}}
+	optionSets := [][]string{nil, {"schedule"}, {"multifetch"}, {"schedule", "multifetch"}}
 	synctest.Test(t, func(t *testing.T) {
 		var caseNo int64
 		for _, f := range rtFamilies(run) {
